@@ -28,6 +28,11 @@ def C06 : List (String × String) := [("NewLastPoint", "0c337d57447e9477"),
   ("Height.IsZero", "bc197f9008f9d5cf"),
   ("Stage.Compare", "9ef838770e6a1f4f")]
 
+def C07 : List (String × String) := [("BaseProposalSelector.getNodes", "434f9eb6c3c13e51"),
+  ("BaseProposalSelector.selectInternal", "3904ab844a8fc8e7"),
+  ("BaseProposalSelector.selectFromProposer", "0d30a369ef3a11ec"),
+  ("BlockBasedProposerSelector.Select", "52eecbad2e40d1ff")]
+
 def C35 : List (String × String) := []
 
 end Mitum.Pins
